@@ -73,6 +73,29 @@ fn ambiguity_necessary_condition(nonstrict: &[Tok]) -> bool {
     false
 }
 
+/// Known-finding classifier: the document ends inside a tag that never completes (so no start
+/// tag token exists), and completing that tag would make it the text-mode-switching start tag
+/// that justifies the refusal. The tag scanner reports the tag name to the tree-builder simulator
+/// as soon as the name ends, before it knows whether the tag will ever be finished.
+pub fn unfinished_tag_would_be_ambiguous(doc: &[u8]) -> bool {
+    let base = tokens::capture(doc, "utf-8", false, &[], tokens::CAP_ALL);
+    let n_start = base.toks.iter().filter(|t| matches!(t, Tok::Start { .. })).count();
+    for tail in [&b">"[..], b"\">", b"'>", b"=x>"] {
+        let mut d = doc.to_vec();
+        d.extend_from_slice(tail);
+        let c = tokens::capture(&d, "utf-8", false, &[], tokens::CAP_ALL);
+        let starts: Vec<&Tok> = c.toks.iter().filter(|t| matches!(t, Tok::Start { .. })).collect();
+        if starts.len() == n_start + 1 && ambiguity_necessary_condition(&c.toks) {
+            if let Some(Tok::Start { name, loc, .. }) = starts.last() {
+                if TEXT_SWITCHING.contains(&name.as_str()) && loc.1 == d.len() {
+                    return true;
+                }
+            }
+        }
+    }
+    false
+}
+
 fn brief(v: &[RTok], i: usize) -> String {
     let lo = i.saturating_sub(2);
     format!("{:?}", &v[lo..v.len().min(i + 3)])
@@ -105,7 +128,19 @@ impl Property for C03 {
 
     fn explore(&self, rng: &mut Rng, _tier: Tier, ex: &mut Explorer<'_>) {
         let (doc, kind) = gen_doc(rng);
-        let doc = String::from_utf8_lossy(&doc).into_owned().into_bytes();
+        let mut doc = String::from_utf8_lossy(&doc).into_owned().into_bytes();
+        if rng.chance(1, 25) {
+            // upstream closes inside a tag: end the document a few bytes after some '<'
+            let lts: Vec<usize> = doc.iter().enumerate().filter(|(_, b)| **b == b'<').map(|(i, _)| i).collect();
+            if !lts.is_empty() {
+                let p = rng.pick(&lts) + rng.range(1, 12) as usize;
+                if p < doc.len() {
+                    doc.truncate(p);
+                    doc = String::from_utf8_lossy(&doc).into_owned().into_bytes();
+                    ex.stats.bump("c03.eof_inside_tag");
+                }
+            }
+        }
         let flags = match rng.below(8) {
             0 => tokens::CAP_TEXT,
             1 => tokens::CAP_COMMENTS,
@@ -181,7 +216,11 @@ impl Property for C03 {
                 st.bump("c03.ambiguity_refusals");
                 let ns = tokens::capture(&sc.doc, "utf-8", false, &[], tokens::CAP_ALL);
                 if !ambiguity_necessary_condition(&ns.toks) {
-                    return Ok(Err(Fail::new("C03.fail_only_if", format!("ParsingAmbiguity without a text-mode-switching start tag after <select>/<frameset>; doc={}", show(&sc.doc)))));
+                    let detail = format!("ParsingAmbiguity without a text-mode-switching start tag after <select>/<frameset>; doc={}", show(&sc.doc));
+                    if unfinished_tag_would_be_ambiguous(&sc.doc) {
+                        return Ok(Err(Fail::known("C03.fail_only_if", detail, "ambiguity_raised_by_unfinished_tag")));
+                    }
+                    return Ok(Err(Fail::new("C03.fail_only_if", detail)));
                 }
                 return Ok(Ok(()));
             }
@@ -239,7 +278,11 @@ impl C03 {
             Outcome::Err(ErrKind::Ambiguity, _) => {
                 let ns = tokens::capture(&sc.doc, "utf-8", false, &[], tokens::CAP_ALL);
                 if !ambiguity_necessary_condition(&ns.toks) {
-                    return Ok(Err(Fail::new("C03.fail_only_if", format!("ParsingAmbiguity without a text-mode-switching start tag after <select>/<frameset>; doc={}", show(&sc.doc)))));
+                    let detail = format!("ParsingAmbiguity without a text-mode-switching start tag after <select>/<frameset>; doc={}", show(&sc.doc));
+                    if unfinished_tag_would_be_ambiguous(&sc.doc) {
+                        return Ok(Err(Fail::known("C03.fail_only_if", detail, "ambiguity_raised_by_unfinished_tag")));
+                    }
+                    return Ok(Err(Fail::new("C03.fail_only_if", detail)));
                 }
                 return Ok(Ok(()));
             }
